@@ -557,6 +557,40 @@ theorem orInsertStep_of_ne (fx : Fix) (d : Dialect) (m : Items) (k n : Nat) (h :
     | placeholder => exact absurd hg h
     | item v => rfl
 
+/-! ### `InlineTable::get_or_insert` -/
+
+/-- with the repair (`fx.goi`), `get_or_insert(k, n)` is `entry(k).or_insert(n)` of the repaired `InlineTable` -/
+theorem goiStep_eq_orInsertStep (fx : Fix) (m : Items) (k n : Nat) (h : fx.goi = true) :
+    goiStep fx m k n = orInsertStep repaired .inline m k n := by
+  unfold goiStep orInsertStep
+  cases hg : imGet m k with
+  | none => rfl
+  | some s => cases s with
+    | placeholder => simp [h, repaired]
+    | item v => rfl
+
+/-- a key whose slot is not an `Item::None`: the call does the same before and after the repair -/
+theorem goiStep_of_ne (fx : Fix) (m : Items) (k n : Nat) (h : imGet m k ≠ some .placeholder) :
+    goiStep fx m k n = goiStep repaired m k n := by
+  unfold goiStep
+  cases hg : imGet m k with
+  | none => rfl
+  | some s => cases s with
+    | placeholder => exact absurd hg h
+    | item v => rfl
+
+/-- the state after the call: untouched, the value written at the key's position, or the pair appended -/
+theorem goiStep_state (fx : Fix) (m : Items) (k n : Nat) :
+    (goiStep fx m k n).2 = m ∨
+    ((imGet m k).isSome ∧ (goiStep fx m k n).2 = imSet m k (.item (.int n))) ∨
+    (imGet m k = none ∧ (goiStep fx m k n).2 = imPush m k (.item (.int n))) := by
+  unfold goiStep
+  cases hg : imGet m k with
+  | none => exact Or.inr (Or.inr ⟨rfl, rfl⟩)
+  | some s => cases s with
+    | placeholder => cases fx.goi <;> first | exact Or.inl rfl | exact Or.inr (Or.inl ⟨rfl, rfl⟩)
+    | item v => exact Or.inl rfl
+
 theorem imGet_imSet_self {S : Type} (m : IMap S) (k : Nat) (s : S) (h : (imGet m k).isSome) :
     imGet (imSet m k s) k = some s := by
   induction m with
